@@ -6,7 +6,42 @@ COMMON_ASSUME = [
     "nodes are named by creation order through the cfg-guarded registry hook; values are one enum type V with a canonical rendering",
 ]
 
+def spec(modules, profiles, channels, rule, builds=("debug",), nq=240, nt=6000, **kw):
+    d = dict(modules=modules, profiles=profiles, builds=list(builds), channels=channels, n_quick=nq, n_thorough=nt,
+             rule=rule, assumptions=COMMON_ASSUME)
+    d.update(kw)
+    return d
+
+
+GEN = ("random well-formed histories from the seeded generator (tools/gen_engine.py): DAGs over vars/constants with map1..6, fold, "
+       "map_ref, map_with_old, zip, depend_on, binds with 2-3 alternatives (pre-existing nodes, the lhs itself, fresh map chains, "
+       "nested binds, unused nodes), all cutoff kinds, observer churn (observe/clone/drop/disallow), subscriptions, the five var writes "
+       "incl. equal values, expert nodes with scripted drivers; 8-60 actions each. ")
+
 PROPS = {
+    "C01": spec(["IncrVerif.Props.C01"], [("static", 0.35), ("bind", 0.45), ("general", 0.2)], ["api", "read"],
+                GEN + "C01 histories use only equality-respecting cutoffs and pure map_with_old machines (the property's proviso); "
+                "non-trivial = distinct history with at least two successful observer reads and one node function invocation",
+                c01_safe=True),
+    "C02": spec(["IncrVerif.Props.C02"], [("bind", 0.5), ("general", 0.3), ("static", 0.2)], ["api", "ev", "read"],
+                GEN + "non-trivial = distinct history in which node functions ran"),
+    "C04": spec(["IncrVerif.Props.C04"], [("general", 0.3), ("bind", 0.3), ("expert", 0.2), ("subs", 0.1), ("varw", 0.1)],
+                ["api"], GEN + "both build profiles (debug assertions on and off); non-trivial = distinct history in which node functions ran",
+                builds=("debug", "release"), nq=200),
+    "C05": spec(["IncrVerif.Props.C05"], [("general", 0.4), ("bind", 0.4), ("life", 0.2)], ["api", "ev", "stats"],
+                GEN + "non-trivial = distinct history in which node functions ran"),
+    "C07": spec(["IncrVerif.Props.C07"], [("varw", 0.4), ("general", 0.4), ("life", 0.2)], ["api", "read", "ev"],
+                GEN + "reads of every observer after every action, and from inside node functions and handlers (readobs effects); "
+                "non-trivial = distinct history with observer reads that succeed"),
+    "C08": spec(["IncrVerif.Props.C08"], [("varw", 0.7), ("general", 0.3)], ["api", "ev", "read", "stats"],
+                GEN + "profile varw: writes from node functions and handlers, several readers; non-trivial = distinct history in which node functions ran"),
+    "C10": spec(["IncrVerif.Props.C10"], [("life", 0.6), ("subs", 0.4)], ["api", "read"],
+                GEN + "profile life: observer-API heavy; non-trivial = distinct history with observer reads"),
+    "C11": spec(["IncrVerif.Props.C11Heap"], [("general", 0.3), ("bind", 0.3), ("expert", 0.2), ("subs", 0.2)],
+                ["snap", "heap", "stats", "audit"],
+                GEN + "the model's full snapshot (heights, timestamps, validity, necessity, ordered parent lists with child indices, children, "
+                "handler counts, heap buckets in order, counters) is compared with verif_snapshot() after EVERY action, and verif_audit() "
+                "(index arrays position by position, heap markers, handler counts) must be silent; non-trivial = distinct history in which node functions ran"),
     "C09": dict(
         modules=["IncrVerif.Props.C09"],
         profiles=[("subs", 0.5), ("general", 0.3), ("bind", 0.2)],
